@@ -35,15 +35,12 @@ struct Fault<C: Suite> {
 pub fn run<C: Suite>(ctx: &mut Ctx) {
     let slow = C::NAME == "ed448";
     let shapes_v: Vec<(u16, u16)> = match (ctx.quick(), slow) {
-        (true, true) => vec![(3, 2), (3, 3)],
-        (true, false) => vec![(3, 2), (3, 3), (4, 2), (4, 3), (4, 4), (5, 3), (5, 5)],
+        (true, true) => vec![(2, 2), (3, 2), (3, 3)],
+        (true, false) => vec![(2, 2), (3, 2), (3, 3), (4, 2), (4, 3), (4, 4), (5, 3), (5, 5)],
         (false, true) => shapes(5),
         (false, false) => shapes(7),
     };
     for (n, t) in shapes_v {
-        if n < 3 {
-            continue;
-        }
         for kind in ["default", "sparse-u16", "derived"] {
             if ctx.quick() && slow && kind != "default" && (n + t) % 2 == 0 {
                 continue;
